@@ -73,18 +73,28 @@ WITNESSES = {
     "cond": (dict(clients=[[None], [9]], bg=False),
              [("run", 1, "c2"), ("run", 2, "c3"), ("peer", 0), ("run", 1, "w0"), ("run", 2, "d5"), ("block", 2), ("block", 1)],
              ss.SIG_LATE),
+    # the receiver is a polling thread (conn.poll_all(0) = serve(0, wait_for_lock=False))
+    "poller": (dict(clients=[[10]], pollers=[[0]]),
+               [("run", 1, "c3"), ("peer", 0), ("run", 2, "n2"), ("block", 1), ("run", 2, "d5")], ss.SIG_MAIN),
+    # negative: the caller parks on the condition behind the polling thread, which receives its reply, releases,
+    # NOTIFIES and dispatches before the caller runs again
+    "poller-cond": (dict(clients=[[None]], pollers=[[0]]),
+                    [("run", 2, "s3"), ("block", 1), ("peer", 0), ("block", 2)], None),
     # negative neighbours: the caller receives its own reply; the caller tests readiness after the dispatch
     "self": (dict(clients=[[10]], bg=True), [("run", 1, "c3"), ("peer", 0), ("block", 1)], None),
     "after": (dict(clients=[[10]], bg=True), [("run", 1, "c3"), ("peer", 0), ("run", 2, "d5"), ("block", 1)], None),
 }
 
-NEIGHBOURHOODS = [("1c+bg", dict(clients=[[4]], bg=True), 2), ("2c", dict(clients=[[None], [4]], bg=False), 1)]
+NEIGHBOURHOODS = [("1c+bg", dict(clients=[[4]], bg=True), 2), ("2c", dict(clients=[[None], [4]], bg=False), 1),
+                  ("1c+poller", dict(clients=[[None]], pollers=[[0]]), 2)]
 RANDOM_CONFIGS = {
     "1c+bg": dict(clients=[[6]], bg=True),
     "1c-none+bg": dict(clients=[[None]], bg=True),
     "2c+bg": dict(clients=[[5], [7]], bg=True),
     "3c": dict(clients=[[5], [None], [7]], bg=False),
     "2c-2calls+bg-tick": dict(clients=[[3, 4], [5]], bg=True, early_tick=True),
+    "2c+poller": dict(clients=[[None], [5]], pollers=[["ready", 0]]),
+    "1c+poller+bg": dict(clients=[[6]], pollers=[[1, "ready"]], bg=True),
 }
 
 
@@ -172,7 +182,7 @@ def correspondence(ctx):
         exhaustive = {}
         plan = NEIGHBOURHOODS if ctx.tier != "thorough" else NEIGHBOURHOODS + [
             ("1c+bg", dict(clients=[[4]], bg=True), 3), ("2c", dict(clients=[[None], [4]], bg=False), 2),
-            ("2c+bg", dict(clients=[[5], [4]], bg=True), 1)]
+            ("2c+bg", dict(clients=[[5], [4]], bg=True), 1), ("2c+poller", dict(clients=[[None], [5]], pollers=[["ready"]]), 1)]
         for name, case, bound in plan:
             batch = []
 
@@ -191,7 +201,7 @@ def correspondence(ctx):
         rng = Rng(ctx.seed).fork("c14")
         names = sorted(RANDOM_CONFIGS)
         k, batch, bname = 0, [], None
-        n_rand = ctx.budget(900, 30000)
+        n_rand = ctx.budget(700, 30000)
         while k < n_rand and time.time() < t_end:
             name = names[k % len(names)]
             r = rng.fork("s%d" % k)
@@ -219,7 +229,7 @@ def known_probes(ctx):
     """replay the Lean counterexamples' schedules on the real code; one probe per listed signature"""
     env = ss.locate_statements()
     out = []
-    for sig, names in ((ss.SIG_MAIN, ("main", "main-none", "clients")), (ss.SIG_LATE, ("late", "cond"))):
+    for sig, names in ((ss.SIG_MAIN, ("main", "main-none", "clients", "poller")), (ss.SIG_LATE, ("late", "cond"))):
         texts, rep = [], False
         for name in names:
             try:
